@@ -17,7 +17,7 @@ func init() {
 		Level: "exploration",
 		Rule: "E-twin with a spelling generator: a directory (and a file) is added under each of 14 spellings (absolute, relative, ./, //, d/../d, trailing slash, /./ inside, via absolute and relative symlinks to directory and file, symlink chain), " +
 			"then entries of every byte length in the padding-boundary list (1..255, all residues mod 16) and 8 shapes (ASCII, spaces, leading dot/dash, multi-byte UTF-8 cut at the byte boundary, invalid UTF-8, control characters) are created/written/chmod'ed/renamed/removed with consumer pauses, " +
-			"so names are decoded at offsets across the whole 64 KiB buffer. Every received name must be byte-for-byte Clean(arg) or Clean(arg)+\"/\"+entry as the driver spelled it; with aliases the first spelling added must be used. Directed family: a directory above the watched path is renamed (watch on top, on top/sub/deep and/or top/sub/f, then top/sub moves): later events must still carry the spellings given to Add. " +
+			"so names are decoded at offsets across the whole 64 KiB buffer. Every received name must be byte-for-byte Clean(arg) or Clean(arg)+\"/\"+entry as the driver spelled it; with aliases the first spelling added must be used. Directed family: a directory above the watched path is renamed (watch on top, on top/sub/deep and/or top/sub/f, then top/sub moves): later events must still carry the spellings given to Add; and the same entry names in three watched directories with name-less notifications of the directories themselves in between. " +
 			"distinct_nontrivial = distinct (spelling, entry name) pairs whose events were compared",
 		Assumptions: []string{"the driver knows every entry name it used, so the expected name set does not depend on the harness decoding kernel buffers", "kernel shadow = ground truth for the stream comparison"},
 		Batches:     func(t string) int { return map[string]int{"quick": 14, "thorough": 56}[t] },
@@ -71,6 +71,15 @@ func runC08(c *core.Ctx) {
 		sp := spellings[(c.Batch+i*5)%len(spellings)]
 		dir, done := caseDir(c, i)
 		c08Case(c, rng, dir, sp, i)
+		done()
+	}
+	for i := 0; i < c.Pick(4, 20); i++ {
+		rng, ok := c.CaseRng(500000+i, "same entry names in several watched directories")
+		if !ok {
+			continue
+		}
+		dir, done := caseDir(c, 500000+i)
+		c08Twins(c, rng, dir, i)
 		done()
 	}
 	for i := 0; i < c.Pick(6, 30); i++ {
@@ -335,6 +344,77 @@ func c08Stale(c *core.Ctx, rng *rand.Rand, dir string, idx int) {
 	for nm := range rep.Names {
 		if !expected[nm] {
 			c.Violate("name-mismatch", fmt.Sprintf("watches added as %q %q %q, then top/sub renamed to %s: received name %q is not an Add argument nor an entry below one", top, deep, file, to, nm), s.Tail(10))
+		}
+	}
+	c08Hang(c, &rep)
+}
+
+// c08Twins: the SAME entry names in several watched directories, with name-less notifications (chmod/utimes of
+// the directories themselves) in between: whatever the library keeps from one event to the next, a name must be
+// built from the watch the notification belongs to and from its own entry name.
+func c08Twins(c *core.Ctx, rng *rand.Rand, dir string, idx int) {
+	s, err := twin.NewSession(dir, []int{-1, 0, 64}[rng.Intn(3)])
+	if err != nil {
+		c.Broken(err.Error())
+		return
+	}
+	defer s.Close()
+	base := s.Base
+	os.Chdir(base)
+	defer os.Chdir("/")
+	var rep twin.Report
+	rep.Names = map[string]int{}
+	expected := map[string]bool{}
+	dirs := []string{"da", "db", "dc"}
+	names := twin.Names(rng, 3, idx%2 == 0)
+	var pref []string
+	for _, d := range dirs {
+		os.Mkdir(d, 0o755)
+		arg := twin.Spell(rng, base, d)
+		if s.AddStrict(&rep, arg) != nil {
+			c.Broken("setup Add failed")
+			return
+		}
+		p := filepath.Clean(arg)
+		pref = append(pref, p)
+		expected[p] = true
+		for _, n := range names {
+			expected[p+"/"+n] = true
+		}
+	}
+	for st := 0; st < 80; st++ {
+		d := dirs[rng.Intn(len(dirs))]
+		p := d + "/" + names[rng.Intn(len(names))]
+		switch rng.Intn(8) {
+		case 0, 1:
+			s.Creat(p)
+		case 2:
+			s.Write(p, 1)
+		case 3:
+			s.Chmod(p, 0o640)
+		case 4:
+			s.Unlink(p)
+		case 5, 6:
+			s.Chmod(d, uint32(0o700+rng.Intn(0o100)|0o700)) // name-less: the directory itself
+		case 7:
+			s.Utimes(d)
+		}
+		if rng.Intn(20) == 0 {
+			s.Pause(true)
+		}
+	}
+	s.Sync(&rep, true)
+	c.Eval(1)
+	c.Count("same_names_in_several_directories_histories", 1)
+	if rep.Received > 0 {
+		c.Distinct("twins", idx, c.Batch)
+	}
+	for _, d := range rep.Diffs {
+		c.Violate("name-stream-mismatch", fmt.Sprintf("same entry names %q in the watched directories %q with name-less notifications in between: stream differs from the kernel log: %s", names, pref, d.Diff), d)
+	}
+	for nm := range rep.Names {
+		if !expected[nm] {
+			c.Violate("name-mismatch", fmt.Sprintf("watched directories %q, entries %q: received name %q", pref, names, nm), s.Tail(10))
 		}
 	}
 	c08Hang(c, &rep)
